@@ -160,6 +160,15 @@ def t1(ctx, rid):
                 if c.name in ('take', 'replace') and prims.receiver_field(og.fn, c) == 'active_blob':
                     detail.append('previous active blob')
                     continue
+                # any other producer: certified when load_index() returned ok on this very value before it is stored
+                g = og.fn
+                carry = core.flows_forward(g, c.dest[0], transparent=core.fwd_transparent)
+                loads = [x for x in g.calls if LOAD_INDEX in prog.resolve(x) and x.args and op_local(x.args[0]) in carry]
+                lok = [core.ok_block(g, x) for x in loads]
+                lok = [x for x in lok if x is not None]
+                if g.id == f.id and lok and bb not in f.reach_from([c.t['t']] if c.t['t'] is not None else [0], avoid_enter=lok):
+                    detail.append('load_index ok on the value before the store')
+                    continue
                 bad = 'origin %r is not certified InMemory' % og
                 break
             elif og.kind == 'arg':
